@@ -464,6 +464,13 @@ func runErrflow(c *Ctx) {
 				// listed exception (one symbol): the pruning DFS, whose callback provably returns only nil or next()
 				status, detail = true, "dropped, but provably nil: the DFS callback returns only nil or next()"
 			}
+			// the other results of the call are looked at only on the nil side of the error check (a `v == nil` test that
+			// runs before `err != nil` swallows the error whenever v is nil)
+			if status && sig.Results().Len() > 1 {
+				if early := c.coResultUsedBeforeCheck(cv, ev, idx); early != "" {
+					status, detail = false, early
+				}
+			}
 			c.R.Add("ERRFLOW-E2", key, core.FuncName(f), p.InstrPos(ci), status, "error result of an in-module or callback call is checked before anything executes user code, returned, or accumulated", detail)
 		}
 	}
@@ -1054,4 +1061,57 @@ func errorConstructor(f *ssa.Function) bool {
 		}
 	}
 	return true
+}
+
+// coResultUsedBeforeCheck: for a call returning (values…, error) whose error is compared with nil, reports a use of
+// one of the other results that is not on the nil side of such a comparison (and is not the joint return of the whole
+// tuple). Empty when every use of the co-results follows the check.
+func (c *Ctx) coResultUsedBeforeCheck(call *ssa.Call, ev ssa.Value, errIdx int) string {
+	type check struct {
+		iff *ssa.If
+		cmp *ssa.BinOp
+	}
+	var checks []check
+	for _, u := range core.Users(ev) {
+		if b, ok := u.(*ssa.BinOp); ok && (b.Op == token.NEQ || b.Op == token.EQL) && (core.IsNilConst(b.X) || core.IsNilConst(b.Y)) {
+			for _, r := range *b.Referrers() {
+				if iff, ok := r.(*ssa.If); ok {
+					checks = append(checks, check{iff, b})
+				}
+			}
+		}
+	}
+	if len(checks) == 0 {
+		return "" // the error is returned / accumulated as a whole: nothing is branched on
+	}
+	for _, ref := range *call.Referrers() {
+		e, ok := ref.(*ssa.Extract)
+		if !ok || e.Index == errIdx {
+			continue
+		}
+		for _, u := range core.Users(e) {
+			if _, isRet := u.(*ssa.Return); isRet {
+				continue
+			}
+			if _, isDbg := u.(*ssa.DebugRef); isDbg {
+				continue
+			}
+			// keeping the value (a store into a variable or element, a phi) decides nothing; what counts is looking at
+			// it: a comparison, a dereference, handing it to a call
+			switch u.(type) {
+			case *ssa.Store, *ssa.Phi, *ssa.MakeInterface, *ssa.ChangeType:
+				continue
+			}
+			okU := false
+			for _, ck := range checks {
+				if nilBranchDominates(ck.iff, ck.cmp, u.Block()) {
+					okU = true
+				}
+			}
+			if !okU {
+				return "result #" + fmt.Sprint(e.Index) + " of the call is used at " + c.P.InstrPos(u) + " before (or regardless of) the nil check of its error"
+			}
+		}
+	}
+	return ""
 }
